@@ -17,6 +17,7 @@ type FuncVC struct {
 	Obls     []*Obligation
 	Err      error // tool limit: the function could not be translated
 	Inputs   []inputSym
+	Trusted  bool
 }
 
 type inputSym struct {
@@ -55,6 +56,12 @@ func buildVC(w *World, c *Contract) (vc *FuncVC) {
 	}
 	fn := w.lookupFunc(c.Pkg, c.Func)
 	vc = &FuncVC{Contract: c, Fn: fn}
+	if c.Options["trusted"] {
+		// an assumed contract: used at call sites, not verified against the body
+		vc.Trusted = true
+		vc.Engine = newEngine(w)
+		return
+	}
 	if fn == nil {
 		vc.Err = fmt.Errorf("function %s not found in SSA", c.id())
 		return
@@ -132,13 +139,13 @@ func buildVC(w *World, c *Contract) (vc *FuncVC) {
 				Goal: and(res.reach, r, not(t)), Cover: true, Func: c.Func, Pos: e.posOf(fn.Pos()), Finding: f})
 		}
 		e.oblige(&Obligation{
-			Name:   c.Func + ".ensures." + cl.Label,
-			Kind:   "ensures",
-			Clause: cl.Expr,
-			Goal:   implies(and(res.reach, not(or(regions...))), t),
+			Name:     c.Func + ".ensures." + cl.Label,
+			Kind:     "ensures",
+			Clause:   cl.Expr,
+			Goal:     implies(and(res.reach, not(or(regions...))), t),
 			NRegions: len(regions),
-			Pos:    fmt.Sprintf("%s:%d", strings.TrimPrefix(cl.File, w.RepoDir+"/"), cl.Line),
-			Func:   c.Func,
+			Pos:      fmt.Sprintf("%s:%d", strings.TrimPrefix(cl.File, w.RepoDir+"/"), cl.Line),
+			Func:     c.Func,
 		})
 		// cover of the antecedent
 		if ap := w.Preds[c.Pkg+"."+cl.Pred+"_ant"]; ap != nil {
